@@ -1,5 +1,12 @@
-(* C03 open findings expressible in the model: finite data, NaN forecast.  The model agrees with
-   the real code on these programs in every run (correspondence); witnesses by computation. *)
+(* C03, historical witnesses (no open finding is expressed here any more; F-C03-1 is about the
+   horizon bookkeeping of update(update_params=True), which the model does not embed).
+   `old_resolve_wl` is NaiveForecaster.fit BEFORE the fixes 9814f9c / ae04e61: the default window
+   (the whole training series) was not checked, so drift was accepted on a single observation and
+   the seasonal mean on a series shorter than one season; with finite data the forecasts were NaN.
+   The current `resolve_wl` rejects both, which is what makes C03_leaf_finite_for_finite hold
+   without exceptions.  A revert of either fix makes the implementation accept the configuration
+   again: the correspondence run then disagrees (model: rejected) and the Python oracle reports
+   `finite-for-finite-data-...`. *)
 From Coq Require Import ZArith QArith List Bool Lia.
 Require Import SkV.Lib.Base SkV.Lib.ZRange SkV.C11.Model SkV.C03.Model.
 Import ListNotations.
@@ -7,15 +14,32 @@ Open Scope Z_scope.
 
 Definition q (z : Z) : oq := Some (inject_Z z).
 
-(* F-C03-2: drift fitted on a single observation: window_length_ = 1, every forecast is NaN *)
-Lemma drift_single_observation_refuted :
-  exists s h, ys s = [q 5] /\ h = Rel [1; 2] /\
-    leaf_values (FNaive SDrift 1 None) s (fit_state s) h = Ok [None; None].
-Proof. exists {| t0 := 0; ys := [q 5] |}, (Rel [1; 2]). repeat split. Qed.
+Definition old_resolve_wl (s : strategy) (sp : Z) (wlo : option Z) (n : Z) : res Z :=
+  let r := match s with
+    | SLast => Ok (if sp =? 1 then 1 else sp)
+    | SMean => match wlo with
+               | Some w => if negb (sp =? 1) && (w <? sp) then Err else Ok w
+               | None => Ok n
+               end
+    | SDrift => match wlo with
+                | Some w => if w =? 1 then Err else Ok w
+                | None => Ok n
+                end
+    end in
+  match r with Ok w => if n <? w then Err else Ok w | Err => Err end.
 
-(* F-C03-4: seasonal mean with the default window on a series shorter than one season is accepted
-   by fit and forecasts NaN for the seasons without an observation *)
-Lemma seasonal_mean_short_series_refuted :
-  exists s h, ys s = [q 1; q 2] /\ h = Rel [1; 2; 3] /\
-    leaf_values (FNaive SMean 4 None) s (fit_state s) h = Ok [None; None; Some (1 / 1)%Q].
-Proof. exists {| t0 := 0; ys := [q 1; q 2] |}, (Rel [1; 2; 3]). repeat split. Qed.
+(* former F-C03-2 (fixed by 9814f9c): drift fitted on a single observation: window_length_ = 1,
+   every forecast NaN; now rejected at fit *)
+Lemma old_drift_single_observation_refuted :
+  exists s wl, ys s = [q 5] /\ old_resolve_wl SDrift 1 None (zlen (ys s)) = Ok wl /\
+    naive_predict_wl SDrift 1 wl (ys s) [1; 2] = Ok [None; None] /\
+    leaf_values (FNaive SDrift 1 None) s (fit_state s) (Rel [1; 2]) = Err.
+Proof. exists {| t0 := 0; ys := [q 5] |}, 1. repeat split. Qed.
+
+(* former F-C03-4 (fixed by ae04e61): seasonal mean with the default window on a series shorter than
+   one season was accepted and forecast NaN for the seasons without an observation; now rejected *)
+Lemma old_seasonal_mean_short_series_refuted :
+  exists s wl, ys s = [q 1; q 2] /\ old_resolve_wl SMean 4 None (zlen (ys s)) = Ok wl /\
+    naive_predict_wl SMean 4 wl (ys s) [1; 2; 3] = Ok [None; None; Some (1 / 1)%Q] /\
+    leaf_values (FNaive SMean 4 None) s (fit_state s) (Rel [1; 2; 3]) = Err.
+Proof. exists {| t0 := 0; ys := [q 1; q 2] |}, 2. repeat split. Qed.
